@@ -137,10 +137,35 @@ def set_of(cls):
     return None, None
 
 
+def inherited_matches(db):
+    """single-unit rules without a match of their own (one<> / not_one<> with an empty list): ( facts of the rule, the match function it inherits )"""
+    out = []
+    for k, r in sorted(db.records.items()):
+        if r.get('tn') != TI + 'one' or any(m.get('n') == 'match' for m in r.get('methods', [])): continue
+        seen = set(); todo = list(r.get('bases', [])); found = None
+        while todo and found is None:
+            b = todo.pop(0)
+            if b in seen: continue
+            seen.add(b)
+            for fn in db.order:
+                if fn['n'] == 'match' and (fn.get('cls') or {}).get('s', fn['q'].rsplit('::', 1)[0]) == b and len(fn.get('params', [])) == 1: found = fn; break
+            todo.extend((db.records.get(b) or {}).get('bases', []))
+        out.append((dict(r, s=k), found))
+    return out
+
+
 def analyse_matches(db, R, kinds):
+    work = []
     for fn in db.order:
         cls = fn.get('cls') or {}
         if fn['n'] != 'match' or cls.get('tn') not in (TI + 'one', TI + 'range', TI + 'ranges', TI + 'any') or '/tao/pegtl/' not in fn['pat']: continue
+        work.append((cls, fn))
+    for cls, fn in inherited_matches(db):
+        if fn is None:
+            R.broke('%s has no match of its own and none was found in its bases' % cls['s']); continue
+        kinds['match-inherited'] += 1
+        work.append((cls, fn))
+    for cls, fn in work:
         S, peek = set_of(cls)
         if S is None: continue
         pname = peek['s'].replace(TI, '')
@@ -332,7 +357,7 @@ def run(tier):
     analyse_ichar(db, R, kinds)
     analyse_matches(db, R, kinds)
     R.cov['obligations_by_kind'] = dict(kinds)
-    for k, fl in (('peek', 20), ('class', 30), ('named', 27), ('ichar', 256), ('match', 85)):
+    for k, fl in (('peek', 20), ('class', 30), ('named', 27), ('ichar', 256), ('match', 85), ('match-inherited', 4)):
         if kinds.get(k, 0) < fl: R.broke('only %d %s obligations (floor %d)' % (kinds.get(k, 0), k, fl))
     R.assumptions = ['the object representation of integers is little-endian (the extraction target equals the build target); the big-endian branch of endian_gcc.hpp is not instantiated on this target',
                      'ICU based rules are outside the statement; 64-bit values are covered exactly (all 2^64 values, as separable sums), not by boundary samples']
